@@ -381,7 +381,7 @@ def generate_module(repo: Path, name: str, spec) -> str:
     return "\n".join(out) + "\n"
 
 
-def generate_all(repo: Path, outdir: Path):
+def generate_all(repo: Path, outdir: Path, only=None):
     """Regenerates every Gen module.  Returns (changed, failures): a module whose source no longer
     fits the supported subset is reported in `failures` (its stale .v is removed so nothing can be
     proved against an out-of-date model)."""
@@ -389,6 +389,8 @@ def generate_all(repo: Path, outdir: Path):
     outdir.mkdir(parents=True, exist_ok=True)
     changed, failures = [], {}
     for name, spec in SPECS.items():
+        if only is not None and name not in only:
+            continue
         f = outdir / f"{name}.v"
         try:
             text = generate_module(repo, name, spec)
